@@ -2,7 +2,7 @@
 From DV Require Import Base.Prelude Model.NameM Model.MessageM.
 From DV Require Import Proofs.NameOrder Proofs.NameValid Proofs.NameRel Proofs.NameWire Proofs.NameCompress.
 From DV Require Import Proofs.MessageName Proofs.MessageRender Proofs.MessageRead Proofs.MessageRoundtrip Proofs.MessageRoundtrip2.
-From DV Require Import Proofs.MessageBits Proofs.MessageSize Proofs.MessageTrunc.
+From DV Require Import Proofs.MessageBits Proofs.MessageSize Proofs.MessageTrunc Proofs.MessageRoundtrip3.
 Open Scope Z_scope.
 
 Lemma keys_fresh_prefix : forall l1 l2 S, keys_fresh S (l1 ++ l2) -> keys_fresh S l1.
@@ -20,10 +20,10 @@ Proof.
   rewrite Z.lor_0_r. reflexivity.
 Qed.
 
-Lemma WfMsg_cut m q1 q2 a1 a2 u1 u2 d1 d2 fl :
-  WfMsg m -> mq m = q1 ++ q2 -> man m = a1 ++ a2 -> mau m = u1 ++ u2 -> mad m = d1 ++ d2 ->
+Lemma WfMsg_cut o m q1 q2 a1 a2 u1 u2 d1 d2 fl :
+  WfMsg o m -> mq m = q1 ++ q2 -> man m = a1 ++ a2 -> mau m = u1 ++ u2 -> mad m = d1 ++ d2 ->
   (fl = mflags m \/ fl = Z.lor (mflags m) fTC) ->
-  WfMsg (cut_msg m fl q1 a1 u1 d1).
+  WfMsg o (cut_msg m fl q1 a1 u1 d1).
 Proof.
   intros [W0 WQ WA WU WD KA KU KD WO] EQ EA EU ED HF.
   rewrite EQ in WQ. rewrite EA in WA, KA. rewrite EU in WU, KU. rewrite ED in WD, KD.
@@ -40,20 +40,20 @@ Proof.
 Qed.
 
 (* prefer_truncation: the result parses; it holds a prefix of the record sets in section order;
-   TC is set exactly when the cut lies before the additional section; the OPT record is kept *)
-Theorem trunc_parses_lemma m ms rp w :
-  WfMsg m -> mtsig m = None -> to_wire m None ms rp true 0 = Ok w ->
+   TC is set exactly when the cut lies before the additional section; OPT and TSIG are kept *)
+Theorem trunc_parses_lemma o m ms rp w :
+  org_ok o -> WfMsg o m -> wf_tsig m -> to_wire m o ms rp true 0 = Ok w ->
   exists q1 q2 a1 a2 u1 u2 d1 d2 m',
     mq m = q1 ++ q2 /\ man m = a1 ++ a2 /\ mau m = u1 ++ u2 /\ mad m = d1 ++ d2 /\
     (q2 <> [] -> a1 = [] /\ u1 = [] /\ d1 = []) /\ (a2 <> [] -> u1 = [] /\ d1 = []) /\ (u2 <> [] -> d1 = []) /\
-    from_wire w None po0 = Ok m' /\
-    msg_equiv m' (cut_msg m (if cut_before q2 a2 u2 then Z.lor (mflags m) fTC else mflags m) q1 a1 u1 d1).
+    from_wire w o po0 = Ok m' /\
+    msg_equiv_t m' (cut_msg m (if cut_before q2 a2 u2 then Z.lor (mflags m) fTC else mflags m) q1 a1 u1 d1).
 Proof.
-  intros WF NT H.
+  intros OO WF WT H.
   destruct (trunc_prefix_lemma _ _ _ _ _ _ H) as (q1 & q2 & a1 & a2 & u1 & u2 & d1 & d2 & EQ & EA & EU & ED & C1 & C2 & C3 & R).
   set (fl := if cut_before q2 a2 u2 then Z.lor (mflags m) fTC else mflags m) in *.
-  assert (WC : WfMsg (cut_msg m fl q1 a1 u1 d1)).
+  assert (WC : WfMsg o (cut_msg m fl q1 a1 u1 d1)).
   { eapply WfMsg_cut; try eassumption. unfold fl. destruct (cut_before q2 a2 u2); auto. }
-  destruct (render_parse_lemma _ _ _ _ WC NT R) as (m' & F & E).
+  destruct (render_parse_full_lemma o OO _ _ _ _ WC WT R) as (m' & F & E).
   exists q1, q2, a1, a2, u1, u2, d1, d2, m'. auto 12.
 Qed.
